@@ -294,6 +294,7 @@ func (namespaceManager *NamespaceManager) AssertPrefixMappingForExpansion(uriExp
 		prefix = "ns" + strconv.Itoa(len(namespaceManager.prefixToExpansionMapping))
 		namespaceManager.prefixToExpansionMapping[prefix] = uriExpansion
 		namespaceManager.expansionToPrefixMapping[uriExpansion] = prefix
+		verifhook.Access(namespaceManager.prefixToExpansionMapping, "NamespaceManager.prefixToExpansionMapping", true)
 		state := &NamespacesState{}
 		state.PrefixToExpansionMapping = namespaceManager.prefixToExpansionMapping
 		state.ExpansionToPrefixMapping = namespaceManager.expansionToPrefixMapping
